@@ -907,11 +907,19 @@ def _atom(e):
         return ("and" if isinstance(e.op, ast.And) else "or", [_atom(v) for v in e.values])
     if isinstance(e, ast.Compare) and len(e.ops) == 1:
         a, b, op = e.left, e.comparators[0], e.ops[0]
-        mk = lambda l, o, r: ("atom", src(ast.Compare(left=l, ops=[o], comparators=[r])))
+        def mk(l, o, r):
+            if isinstance(o, ast.Eq) and src(r) < src(l):
+                l, r = r, l                     # == is symmetric: one spelling
+            t = src(ast.Compare(left=l, ops=[o], comparators=[r]))
+            if isinstance(o, (ast.Lt, ast.Eq)):
+                _ATOM_STRUCT[t] = ("<" if isinstance(o, ast.Lt) else "==", src(l), src(r))
+            return ("atom", t)
         if isinstance(op, (ast.In, ast.NotIn)) and isinstance(b, (ast.Tuple, ast.List, ast.Set)) and 1 <= len(b.elts) <= 4:
             alts = [mk(a, ast.Eq(), z) for z in b.elts]         # x in (A, B)  ==  x == A or x == B
             f = alts[0] if len(alts) == 1 else ("or", alts)
             return f if isinstance(op, ast.In) else ("not", f)
+        if isinstance(op, ast.Eq):
+            return mk(a, ast.Eq(), b)
         if isinstance(op, ast.Lt):
             return mk(a, ast.Lt(), b)
         if isinstance(op, ast.Gt):
@@ -935,6 +943,31 @@ def _atom(e):
     if isinstance(e, ast.Constant):
         return ("const", bool(e.value))
     return ("atom", src(e))
+
+
+_ATOM_STRUCT = {}      # atom text -> ("<" | "==", left text, right text)
+
+
+def _assignments(atoms):
+    """truth assignments over the atoms that are consistent with a total order on the compared terms: for each pair of terms,
+    exactly one of a < b, b < a, a == b holds (constrained only among those of the three that occur)"""
+    import itertools
+    groups = {}
+    for t in atoms:
+        st = _ATOM_STRUCT.get(t)
+        if st:
+            groups.setdefault(frozenset((st[1], st[2])), []).append(t)
+    tri = [g for g in groups.values() if len(g) >= 2]
+    for vals in itertools.product((False, True), repeat=len(atoms)):
+        env = dict(zip(atoms, vals))
+        ok = True
+        for g in tri:
+            k = sum(1 for t in g if env[t])
+            if k > 1 or (len(g) == 3 and k != 1):
+                ok = False
+                break
+        if ok:
+            yield env
 
 
 def _atoms(f, acc):
@@ -1009,8 +1042,7 @@ def formula_equiv(f, expected_text, ignore=()):
     if len(atoms) > 14:
         return False
     import itertools
-    for vals in itertools.product((False, True), repeat=len(atoms)):
-        env = dict(zip(atoms, vals))
+    for env in _assignments(atoms):
         if _eval(f, env) != _eval(g, env):
             return False
     return True
@@ -1023,8 +1055,7 @@ def formula_implies(f, expected_text):
     if len(atoms) > 16:
         return False
     import itertools
-    for vals in itertools.product((False, True), repeat=len(atoms)):
-        env = dict(zip(atoms, vals))
+    for env in _assignments(atoms):
         if _eval(f, env) and not _eval(g, env):
             return False
     return True
@@ -1037,8 +1068,7 @@ def formula_implied_by(f, premise_text):
     if len(atoms) > 16:
         return False
     import itertools
-    for vals in itertools.product((False, True), repeat=len(atoms)):
-        env = dict(zip(atoms, vals))
+    for env in _assignments(atoms):
         if _eval(g, env) and not _eval(f, env):
             return False
     return True
@@ -1142,23 +1172,50 @@ def propagate_constants(fn, module_tree=None):
     return f2
 
 
-def truth_formula(view):
+def truth_formula(view, max_paths=3000):
     """the condition under which a predicate function returns a truthy value, as a propositional formula over its tests:
-    OR over its return statements of (path condition of the return AND truth of the returned expression).  `if c: return True
-    else: return False`, `return c`, `return True if c else False`, guard-clause spellings all give the same formula."""
+    OR over the (loop-free) paths to its return statements of (tests taken on the path AND truth of what is returned there).
+    A returned local is read through to the assignment that last defined it *on that path* (`result = False; if c: result =
+    E; return result`), so flag-style, early-return, `return cond` and conditional-expression spellings give one formula."""
+    cfg = view.cfg
     disj = []
-    for r in view.cfg.nodes:
+    for r in cfg.nodes:
         if r.kind != "return":
             continue
-        v = r.ast.value
-        if v is None or (isinstance(v, ast.Constant) and not v.value):
+        v0 = r.ast.value
+        if v0 is None or (isinstance(v0, ast.Constant) and not v0.value):
             continue
-        pc = path_condition(view, r, start=[view.cfg.entry.id])
-        if isinstance(v, ast.Constant):
-            disj.append(pc)
-        else:
+        for p in cfg.paths(cfg.entry.id, [r.id], max_visits=1, limit=max_paths):
+            conj = []
+            for a_, b_ in zip(p, p[1:]):
+                n = cfg.nodes[a_]
+                if n.kind == "test" and not isinstance(n.ast, ast.While):
+                    lab = [l for x, l in cfg.succ[a_] if x == b_]
+                    if lab and lab[0] in ("T", "F"):
+                        t = n.ast.test
+                        try:
+                            t = view.sym(t, n)
+                        except Exception:
+                            pass
+                        f = _atom(t)
+                        conj.append(f if lab[0] == "T" else ("not", f))
+            v, at = v0, r
+            if isinstance(v, ast.Name):
+                defs = view._def_nodes(v.id)
+                last = [i for i in p[:-1] if i in defs]
+                # a definition left on an exception edge did not happen
+                last = [i for i in last if not all(l == "exc" for x, l in cfg.succ[i] if x == p[p.index(i) + 1])]
+                if last:
+                    d = cfg.nodes[last[-1]]
+                    if isinstance(d.ast, ast.Assign) and len(d.ast.targets) == 1 and isinstance(d.ast.targets[0], ast.Name):
+                        v, at = d.ast.value, d
+            if isinstance(v, ast.Constant):
+                if not v.value:
+                    continue
+                disj.append(("and", conj))
+                continue
             try:
-                v = view.sym(v, r)
+                v = view.sym(v, at)
             except Exception:
                 pass
             if isinstance(v, ast.IfExp):
@@ -1166,7 +1223,7 @@ def truth_formula(view):
                 val = ("or", [("and", [t, _atom(v.body)]), ("and", [("not", t), _atom(v.orelse)])])
             else:
                 val = _atom(v)
-            disj.append(("and", [pc, val]))
+            disj.append(("and", conj + [val]))
     return ("or", disj)
 
 
@@ -1207,7 +1264,7 @@ def formula_unsat(f, g=None):
     if len(atoms) > 16:
         return False
     import itertools
-    return not any(_eval(h, dict(zip(atoms, vals))) for vals in itertools.product((False, True), repeat=len(atoms)))
+    return not any(_eval(h, env) for env in _assignments(atoms))
 
 
 def formula_of(text):
@@ -1254,8 +1311,7 @@ def formula_implies_f(f, g):
     if len(atoms) > 16:
         return False
     import itertools
-    for vals in itertools.product((False, True), repeat=len(atoms)):
-        env = dict(zip(atoms, vals))
+    for env in _assignments(atoms):
         if _eval(f, env) and not _eval(g, env):
             return False
     return True
